@@ -18,6 +18,8 @@ inductive TVal where
   | int (n : Int)
   | bool (b : Bool)
   | clo (body : AST) (env : TEnv)
+  /-- a list: its element expressions, each still delayed in its environment -/
+  | list (elems : List (AST × TEnv))
 
 def isLit : AST → Option Int | .lit n _ => some n | _ => none
 
@@ -72,11 +74,22 @@ def bnEval : Nat → TEnv → AST → Option TVal
               | some (.int x), some (.int y) => some (.bool (decide (x < y)))
               | _, _ => none)
            | _ => none)
+        else if encodeNumber n = [4, 3] then some (.list (args.map (fun a => (a, ρ))))
         else none
       | none =>
         match bnEval fuel ρ f with
         | some (.clo b ρd) => bnEval fuel (.mk (ρd.funs ++ [(b, ρd)]) (ρd.args ++ [args.map (fun a => (a, ρ))])) b
         | some (.bool bb) => (match args with | [x, y] => bnEval fuel ρ (if bb then x else y) | _ => none)
+        | some (.list elems) =>
+          (match args with
+           | [a] =>
+             (match bnEval fuel ρ a with
+              | some (.int i) =>
+                (match pyIndex elems i with
+                 | some (e', ρ') => bnEval fuel ρ' e'
+                 | none => none)
+              | _ => none)
+           | _ => none)
         | _ => none
     | .bomb => none
 
